@@ -83,10 +83,13 @@ check("C14", "model_checking",
       "through IpcSender::send by a harness value type whose Serialize impl performs it; compared: result of every "
       "(nested) send, which message carries which attachment at which position (identity probes), table lengths 0 after "
       "the call, every attached channel disconnects once the program's handles are dropped, and a follow-up message "
-      "from the same thread carries only its own attachment.",
+      "from the same thread carries only its own attachment. NestedRecv.tla models the receive side with nesting "
+      "(to() swaps the message's lists in and the enclosing decode's tables back): SelfContained, NothingRetained; every "
+      "value (slots D/S/R/M/receive-inside-Deserialize, depth 1 x 2 exhaustively, depth 3 x 3 simulated) is decoded by a "
+      "harness type whose Deserialize impl performs the nested receive, identity of every attachment probed.",
       "Scripts are bounded (depth 3, 3 slots); the mutant config SerVariant=early_return (the code before the fix) "
       "violates NothingRetained in the model and is rejected by the replay.",
-      "TLC model checking of SideTables.tla + replay of every script through the API",
+      "TLC model checking of SideTables.tla and NestedRecv.tla + replay of every script/value through the API",
       "DESIGN.md 3.6, 6 (C14)")
 check("C16", "model_checking",
       "SideTables.tla's decode machine (attachment lists x reference sequences: in range, out of range, repeated, "
@@ -108,11 +111,15 @@ check("C02", "model_checking",
       "another began is delivered first), AcceptedDelivered, Terminates. TLC random walks through the same model are "
       "executed on the real crate: sender threads and spawned sender processes and the receiving thread are held at "
       "their system-call hooks and released one call at a time in exactly the model's order, so each interleaving is "
-      "forced rather than hoped for; receive results and delivery order must equal the model's.",
+      "forced rather than hoped for; receive results and delivery order must equal the model's. Fifo.tla states the "
+      "property at call level (send = interval with a linearisation point) and TLC shows its trace rules necessary; "
+      "free-running scenarios with 1..8 senders (threads, clones, spawned processes; up to 24 single-/multi-packet "
+      "messages each) and six receiver behaviours (eager, delayed, try_recv, try_recv_timeout, mixed, receiver set) are "
+      "recorded and every delivery/disconnection validated by TLC against FifoTrace.tla.",
       "Schedules executed on real code are a sample (quick ~700, thorough several thousand) of the exhaustively checked "
       "model; send buffer 4096 via the override hook; a schedule the code cannot follow (different system-call sequence) is "
       "counted as unmatched and judged only by the property-level oracle.",
-      "TLC exhaustive model checking of Transport.tla + gated replay of TLC-generated interleavings on real threads/processes",
+      "TLC exhaustive model checking of Transport.tla + gated replay of TLC-generated interleavings on real threads/processes + TLC trace validation of free-running runs (FifoTrace.tla)",
       "DESIGN.md 3.3, 4.4, 6 (C02)")
 check("C10", "model_checking",
       "Transport.tla with the receiver's O_NONBLOCK flag, poll and the sleeping states of recvmsg/poll: BlockingRestored, "
